@@ -109,13 +109,13 @@ class JSONListFormatter(SequenceFormatter):
 
         This delegates to the parent formatter's implementation::
 
-            self.parent.print(*args, **kwargs)
+            self.parent.print(*args, with_edits=False, **kwargs)
 
         which should invoke :meth:`JSONFormatter.print`, thereby delegating to the :class:`JSONDictFormatter` in
         instances where a list contains a dict.
 
         """
-        self.parent.print(*args, **kwargs)
+        self.parent.print(*args, with_edits=False, **kwargs)
 
 
 class JSONDictFormatter(SequenceFormatter):
@@ -154,13 +154,13 @@ class JSONDictFormatter(SequenceFormatter):
 
         This delegates to the parent formatter's implementation::
 
-            self.parent.print(*args, **kwargs)
+            self.parent.print(*args, with_edits=False, **kwargs)
 
         which should invoke :meth:`JSONFormatter.print`, thereby delegating to the :class:`JSONListFormatter` in
         instances where a dict contains a list.
 
         """
-        self.parent.print(*args, **kwargs)
+        self.parent.print(*args, with_edits=False, **kwargs)
 
 
 class JSONStringFormatter(StringFormatter):
